@@ -46,6 +46,7 @@ pub trait FromStream: Sized {
 #[verifier::external_body]
 pub struct WorkerCounterGuard { _p: () }
 
+//@once call
 /// actix_service::Service (only what StreamService uses).  PROPHECY name `called_with()`: the request the (one) `call`
 /// made during the verified function passes; `ready_outcome()`: what the next poll_ready answers.
 pub trait Service<Req> {
